@@ -239,6 +239,31 @@ func LockStep(p *Prog, spec LockStepSpec, sums map[string]Summary) []LockStepRes
 						e[x] = lsVal{def: x, ms: multiset{konst: c}.add(termOf(x.Y))}
 					}
 				}
+				if x.Op == token.SUB {
+					// len(input) − len(cursor): by definition the number of bytes the cursor has moved over
+					if lx, okx := isLenCall(x.X); okx {
+						if ly, oky := isLenCall(x.Y); oky {
+							if vx, hx := e[lx]; hx && vx.cursor {
+								if vy, hy := e[ly]; hy && vy.cursor && vx.root == vy.root {
+									if d, sub := vy.ms.minus(vx.ms); sub {
+										var root ssa.Value // absolute counter unless the cursors are a loop's inductive ones
+										if _, isPhi := vy.root.(*ssa.Phi); isPhi {
+											root = vy.root
+										}
+										e[x] = lsVal{def: x, root: root, ms: d}
+									}
+								}
+							}
+						}
+					}
+				}
+			case *ssa.Call:
+				// the module's generic cast helper is a conversion
+				if CalleeName(x) == "pkg/math.CastTo" && len(x.Call.Args) == 1 {
+					if v, ok := e[x.Call.Args[0]]; ok && !v.cursor {
+						e[x] = v
+					}
+				}
 			case *ssa.Convert:
 				if v, ok := e[x.X]; ok && !v.cursor {
 					e[x] = v
@@ -271,6 +296,8 @@ func LockStep(p *Prog, spec LockStepSpec, sums map[string]Summary) []LockStepRes
 						okc, why := checkCounter(bnd, e, lsVal{ms: multiset{konst: c}}, x, param)
 						record(x, "return", okc, why)
 					} else if lx, isLen := isLenCall(rv); isLen && bnd.lenLE(lx, param) {
+						record(x, "return", true, "")
+					} else if helperReturnsLenOfInput(bnd, rv, param) {
 						record(x, "return", true, "")
 					} else if _, isField := loadOfField(rv, spec.StoreField); isField && spec.StoreField != "" {
 						record(x, "return", true, "") // returns the field whose store is a checkpoint
@@ -443,4 +470,57 @@ func checkCounter(bnd *Bounds, e map[ssa.Value]lsVal, v lsVal, at ssa.Instructio
 		best = "counter " + v.ms.String() + " does not match any cursor offset on this path"
 	}
 	return false, best
+}
+
+// helperReturnsLenOfInput: the returned count is the result of a helper analysed as part of this function whose every return
+// yields len(p) for a parameter p that, at every call site, is (a tail of) the input.
+func helperReturnsLenOfInput(bnd *Bounds, rv, param ssa.Value) bool {
+	var call *ssa.Call
+	idx := 0
+	switch x := rv.(type) {
+	case *ssa.Call:
+		call = x
+	case *ssa.Extract:
+		c, ok := x.Tuple.(*ssa.Call)
+		if !ok {
+			return false
+		}
+		call, idx = c, x.Index
+	default:
+		return false
+	}
+	h := AbsorbedCallee(call)
+	if h == nil {
+		return false
+	}
+	n := 0
+	for _, r := range ReturnsOf(h) {
+		if idx >= len(r.Results) {
+			return false
+		}
+		if ReturnsNonNilError(r) {
+			continue
+		}
+		v := retVal(r, idx)
+		if c, isC := ConstInt(v); isC && c <= 0 {
+			continue
+		}
+		lx, isLen := isLenCall(v)
+		if !isLen {
+			return false
+		}
+		p, isP := lx.(*ssa.Parameter)
+		if !isP || p.Parent() != h {
+			return false
+		}
+		for k, q := range h.Params {
+			if q == p {
+				if k >= len(call.Call.Args) || !bnd.lenLE(call.Call.Args[k], param) {
+					return false
+				}
+			}
+		}
+		n++
+	}
+	return n > 0
 }
